@@ -126,13 +126,14 @@ def replay_lifecycle_case(case):
             if cfg["source"] == "path":
                 return path + "_index" if cfg["index"] == "indexonly" else path
             data = e.index if cfg["index"] == "indexonly" else e.data
-            if variant % 2 == 0:
+            if variant % 3 == 0:
                 s = io.BytesIO(data)
             else:
                 p2 = os.path.join(tmp, "caller_stream.bin")
                 with open(p2, "wb") as fh:
                     fh.write(data)
-                s = open(p2, "rb")
+                # a buffered file object, or an unbuffered raw one (io.FileIO)
+                s = open(p2, "rb") if variant % 3 == 1 else open(p2, "rb", buffering=0)
                 exclude.add(s.fileno())
             caller_streams.append(s)
             return s
@@ -192,6 +193,8 @@ def replay_lifecycle_case(case):
                     fails.append((sig("descriptors", op, leaked=sorted(now - set(o["fds"]))),
                                   dict(step, cfg=cfg, expected=o["fds"], observed=sorted(now), variant=variant)))
                     break
+            import gc
+            gc.collect()
             for s in caller_streams:
                 if s.closed:
                     fails.append((sig("caller-stream-closed", op), dict(step, cfg=cfg, variant=variant)))
